@@ -56,6 +56,37 @@ proofs! {
     assert!(a.matches(&b, ra, rb) == want);
 }
 
+// Locale::matches: false whenever either side has private-use subtags, otherwise the
+// language-identifier result, ignoring -u- content; LanguageIdentifier vs &Locale directly
+[push, sortt] fn c11_locale_matches() {
+    let (a, ma) = sym::any_langid(1);
+    let (b, mb) = sym::any_langid(1);
+    let a2 = a.clone();
+    let mut la = Locale::from(a);
+    let mut lb = Locale::from(b);
+    // optional private-use tag / -u- attribute on each side (argument fully symbolic: only valid ones stick)
+    let ta = sym::tok9();
+    let tb = sym::tok9();
+    let ua = sym::tok9();
+    let pa = k::bool() && la.extensions.private.add_tag(ta.bytes()).is_ok();
+    let pb = k::bool() && lb.extensions.private.add_tag(tb.bytes()).is_ok();
+    let _ = la.extensions.unicode.set_attribute(ua.bytes());
+    let ra = k::bool();
+    let rb = k::bool();
+    let got = la.matches(&lb, ra, rb);
+    let idm = spec::langid_matches(&ma, &mb, ra, rb);
+    cover!(pa && !pb);
+    cover!(!pa && !pb && got);
+    assert!(pa == !la.extensions.private.is_empty() && pb == !lb.extensions.private.is_empty());
+    if pa || pb {
+        assert!(!got, "private-use subtags on either side: never a match");
+    } else {
+        assert!(got == idm, "otherwise the language-identifier result, ignoring -u-/-t- content");
+    }
+    assert!(a2.matches(&lb, ra, rb) == idm, "a LanguageIdentifier matched against a Locale uses the Locale's id");
+    core::mem::forget((la, lb, a2));
+}
+
 [] fn c11_langid_formula_v1() { formula(1) }
 [] fn c11_langid_formula_v2() { formula(2) }
 [] fn c11_langid_laws_v1() { laws(1) }
